@@ -974,9 +974,8 @@ Proof.
   apply andb_true_iff in Da as [Da A4]. apply andb_true_iff in Da as [Da A3]. apply andb_true_iff in Da as [A1 A2].
   apply andb_true_iff in Db as [Db B4]. apply andb_true_iff in Db as [Db B3]. apply andb_true_iff in Db as [B1 B2].
   split.
-  - now rewrite !asd_app.
-  - unfold cv in *. rewrite !count_app by assumption.
-    inversion Ca; subst. inversion Cb; subst. reflexivity.
+  - unfold d4. now rewrite !asd_app.
+  - subst va vb. unfold cv. rewrite !count_app by assumption. reflexivity.
 Qed.
 
 Lemma pc_nil : pc "" vzero.
@@ -1122,7 +1121,8 @@ Proof. induction l as [|x l IH]; [reflexivity|]. cbn [map vsum length]. now rewr
 
 Lemma vsum_lines {A} (l : list A) : vsum (map (fun _ => (0, 0, 3, 0)) l) = (0, 0, 3 * length l, 0).
 Proof.
-  induction l as [|x l IH]; [reflexivity|]. cbn [map vsum length]. rewrite IH. cbn [vadd]. f_equal. f_equal. f_equal. lia.
+  induction l as [|x l IH]; [reflexivity|]. cbn [map vsum length]. rewrite IH.
+  replace (3 * S (length l)) with (3 + 3 * length l) by lia. reflexivity.
 Qed.
 
 Lemma labels_pc repl fs pos names :
@@ -1161,6 +1161,10 @@ Proof.
     intros x Hx. apply H. now right.
 Qed.
 
+Lemma vec4_eq (a b c d a' b' c' d' : nat) :
+  a = a' -> b = b' -> c = c' -> d = d' -> (a, b, c, d) = (a', b', c', d').
+Proof. now intros -> -> -> ->. Qed.
+
 Lemma pc_counts s a b c d :
   pc s (a, b, c, d) ->
   count_starts P_text s = a /\ count_starts P_circle s = b /\ count_starts P_edge s = c /\ count_starts P_wedge s = d.
@@ -1193,7 +1197,7 @@ Proof.
     eapply pc_app; [now apply nodes_pc|].
     eapply pc_app; [now apply labels_pc|].
     pc_tpl.
-  - destruct display_edges; cbn; repeat f_equal; lia.
+  - destruct display_edges; cbn; apply vec4_eq; lia.
 Qed.
 
 Theorem visualize_bigraph_string_counts repl width height display_edges edges residual nodes_row nodes_col
@@ -1225,7 +1229,7 @@ Proof.
     eapply pc_app; [now apply labels_pc|].
     eapply pc_app; [now apply labels_pc|].
     pc_tpl.
-  - rewrite filter_app, app_length. destruct display_edges; cbn; repeat f_equal; lia.
+  - rewrite filter_app, app_length. destruct display_edges; cbn; apply vec4_eq; lia.
 Qed.
 
 Lemma merge_top_pc lw m : safe_field lw = true -> merge_safe m = true -> pc (merge_top lw m) (0, 0, 3, 0).
@@ -1240,8 +1244,8 @@ Proof.
   eapply pc_eq; [eapply pc_app; [apply svg_line_pc; auto|]; eapply pc_app; apply svg_line_pc; auto | reflexivity].
 Qed.
 
-Theorem visualize_dendrogram_string_counts repl_top repl_left rotate width height names rotate_names font_size
-        line_width merges :
+Theorem visualize_dendrogram_string_counts (repl_top repl_left : list (ascii * string)) (rotate : bool)
+        width height names rotate_names font_size line_width merges :
   sanitiser_ok (if rotate then repl_left else repl_top) = true ->
   safe_field width = true -> safe_field height = true -> safe_field font_size = true ->
   safe_field line_width = true -> labels_safe names = true -> forallb merge_safe merges = true ->
@@ -1267,12 +1271,12 @@ Proof.
       eapply pc_app; [|pc_leaf].
       eapply pc_eq; [apply (pc_sconcat_map _ (fun _ => (0, 0, 3, 0))) | apply vsum_lines].
       intros m Hm'. apply merge_left_pc; auto.
-    + cbn. repeat f_equal; lia.
+    + cbn. apply vec4_eq; lia.
   - eapply pc_eq.
     + eapply pc_app; [pc_tpl|].
       eapply pc_app; [apply HT; intros t Ht; now apply dendrogram_text_top_pc|].
       eapply pc_app; [|pc_leaf].
       eapply pc_eq; [apply (pc_sconcat_map _ (fun _ => (0, 0, 3, 0))) | apply vsum_lines].
       intros m Hm'. apply merge_top_pc; auto.
-    + cbn. repeat f_equal; lia.
+    + cbn. apply vec4_eq; lia.
 Qed.
